@@ -20,6 +20,12 @@ specification against real NumPy (M1) and the code model + real nutils against b
 -/
 namespace NutilsVerif.C07
 
+/-- all-or-nothing collection of optional results (a Python loop that raises at the first failure) -/
+def sequence {α : Type} : List (Option α) → Option (List α)
+  | [] => some []
+  | none :: _ => none
+  | some a :: t => (sequence t).map (a :: ·)
+
 /-! ## 1. `numeric.normdim` -/
 
 /-- code model of `numeric.normdim(ndim, n)`: `none` = IndexError -/
@@ -78,6 +84,29 @@ def npUfuncKind (name : String) (ds : List DType) : Option DType :=
   else if name ∈ ["logical_and", "logical_or", "bitwise_and", "bitwise_or"] then some join
   else none
 
+/-- specification side condition: operand kinds for which NumPy defines the ufunc with the kind given by `npUfuncKind`
+AND nutils claims support (everything else is either rejected by one of the two or a documented deviation:
+NumPy computes `floor_divide(bool,bool)` in int8, `conjugate(bool)` in int8 — known finding —, rejects `bool - bool`, …) -/
+def supportedKinds (name : String) (ds : List DType) : Bool :=
+  let allb := ds.all (· == .bool)
+  let anyc := ds.any (· == .complex)
+  let anyb := ds.any (· == .bool)
+  if name ∈ ["subtract", "negative", "positive"] then !allb
+  else if name ∈ ["floor_divide", "remainder"] then !allb && !anyc
+  else if name ∈ ["minimum", "maximum"] then !anyc
+  else if name ∈ ["greater", "less"] then !anyc && !allb
+  else if name ∈ ["sign"] then !anyb && !anyc
+  else if name ∈ ["conjugate"] then !anyb
+  else if name ∈ ["reciprocal"] then ds.all fun d => d == .float || d == .complex
+  else if name ∈ ["logical_and", "logical_or", "bitwise_and", "bitwise_or", "logical_not", "invert"] then allb
+  else if name ∈ ["power"] then !anyb
+  else true
+
+/-- all kind tuples of length `n` -/
+def allKinds : Nat → List (List DType)
+  | 0 => [[]]
+  | n + 1 => (allKinds n).flatMap fun t => [DType.bool :: t, .int :: t, .float :: t, .complex :: t]
+
 /-! ## 3. broadcasting -/
 
 /-- specification: two axis lengths are compatible when equal or one of them is 1 -/
@@ -102,10 +131,15 @@ def npBroadcast : List (List Nat) → Option (List Nat)
   | [] => some []
   | s :: ss => (npBroadcast ss).bind (npBroadcast2 s)
 
+/-- `set(col)` as a duplicate-free list (the order of a Python set is irrelevant to what follows) -/
+def distinct : List Nat → List Nat
+  | [] => []
+  | x :: xs => if x ∈ xs then distinct xs else x :: distinct xs
+
 /-- code model: one column of `zip(*aligned_shapes)` handled as a set:
 `if len(lengths) > 1: lengths.discard(1); if len(lengths) != 1: raise` -/
 def bcColumn (col : List Nat) : Option Nat :=
-  let s := col.eraseDups
+  let s := distinct col
   let s := if s.length > 1 then s.filter (· ≠ 1) else s
   match s with
   | [n] => some n
@@ -116,7 +150,7 @@ def broadcastShapes (shapes : List (List Nat)) : Option (List Nat) :=
   if shapes.isEmpty then none else
   let naxes := (shapes.map List.length).foldl max 0
   let aligned := shapes.map fun s => List.replicate (naxes - s.length) 1 ++ s
-  (List.range naxes).mapM fun i => bcColumn (aligned.map fun s => s.getD i 1)
+  sequence ((List.range naxes).map fun i => bcColumn (aligned.map fun s => s.getD i 1))
 
 /-! ## 4. slices -/
 
@@ -243,7 +277,7 @@ def normIndex (i : Int) (n : Nat) : Option Nat :=
   let j := if i < 0 then i + (n : Int) else i
   if j < 0 ∨ j ≥ (n : Int) then none else some j.toNat
 
-def normIndices (is : List Int) (n : Nat) : Option (List Nat) := is.mapM (normIndex · n)
+def normIndices (is : List Int) (n : Nat) : Option (List Nat) := sequence (is.map (normIndex · n))
 
 def countEllipsis (items : List Item) : Nat := (items.filter (· == .ellipsis)).length
 def countNewaxis (items : List Item) : Nat := (items.filter (· == .newaxis)).length
@@ -383,10 +417,12 @@ def npGetitem (shape : List Nat) (items : List Item) : Option View :=
     match npBroadcast (advs.map fun | .adv ish _ => ish | _ => []) with
     | none => none
     | some bsh =>
-      -- are the advanced entries adjacent (ignoring nothing: newaxis / slices in between separate them)?
+      -- NumPy decides syntactically: the advanced indices are adjacent when no slice, ellipsis (even an empty one) or
+      -- newaxis stands between the first and the last of them in the item tuple
+      let isAdvItem : Item → Bool := fun | .int _ => true | .array _ _ => true | _ => false
+      let core := ((items.dropWhile (! isAdvItem ·)).reverse.dropWhile (! isAdvItem ·))
+      let adjacent := core.all isAdvItem
       let firstAdv := (axs.findIdx? AxisIx.isAdv).getD 0
-      let lastAdv := axs.length - 1 - ((axs.reverse.findIdx? AxisIx.isAdv).getD 0)
-      let adjacent := ((axs.drop firstAdv).take (lastAdv + 1 - firstAdv)).all AxisIx.isAdv
       let axShape : AxisIx → List Nat := fun | .all r => [r.length] | .new => [1] | .adv _ _ => []
       let preShape := ((axs.take firstAdv).map axShape).flatten
       let nonAdvShape := ((axs.filter (! ·.isAdv)).map axShape).flatten
@@ -494,28 +530,26 @@ def reshape (shape : List Nat) (newshape : List (Option Nat)) : Except String RV
   let v ← stripOnes v.shape.length ns.length v
   if v.shape = ns then pure v else .error "AssertionError"
 
-/-- specification: NumPy accepts `reshape(shape → newshape)` iff at most one entry is `-1` and the sizes agree;
-the result holds at multi-index `idx` the entry with row-major offset `flatIdx ns idx` of the original. -/
-def npReshape (shape : List Nat) (newshape : List (Option Nat)) : Option RView :=
+/-- specification: NumPy accepts `reshape(size → newshape)` iff at most one entry is `-1` (`none`) and the sizes
+agree; the unknown entry is the quotient. -/
+def npReshapeShape (size : Nat) (newshape : List (Option Nat)) : Option (List Nat) :=
   let known := newshape.filterMap id
-  let others := known.foldl (· * ·) 1
-  let size := shapeSize shape
-  match newshape.length - known.length with
-  | 0 => if others = size then some ⟨known, flatIdx known⟩ else none
-  | 1 =>
-    if others ≠ 0 ∧ size % others = 0 then
-      let ns := newshape.map fun | some n => n | none => size / others
-      some ⟨ns, flatIdx ns⟩
-    else if others = 0 ∧ size = 0 then none   -- NumPy: ambiguous, rejects
-    else none
+  let others := shapeSize known
+  match newshape.count none with
+  | 0 => if others = size then some known else none
+  | 1 => if others ≠ 0 ∧ size % others = 0 then some (newshape.map fun | some n => n | none => size / others) else none
   | _ => none
+
+/-- specification: the result holds at multi-index `idx` the entry with row-major offset `flatIdx ns idx` of the original. -/
+def npReshape (shape : List Nat) (newshape : List (Option Nat)) : Option RView :=
+  (npReshapeShape (shapeSize shape) newshape).map fun ns => ⟨ns, flatIdx ns⟩
 
 /-! ## 7. transposition helpers -/
 
 /-- code model of `_Transpose._end(array, axes, invert)`: the axes tuple handed to `_Transpose`
 (`none` = IndexError from normdim or the 'duplicate axes' exception); `some none` = "return array" (identity) -/
 def transposeEnd (ndim : Nat) (axes : List Int) (invert : Bool) : Option (Option (List Nat)) :=
-  match axes.mapM (normdim ndim) with
+  match sequence (axes.map (normdim ndim)) with
   | none => none
   | some ax =>
     if ax == (List.range ax.length).map (· + (ndim - ax.length)) ∧ ax.length ≤ ndim then some none else
